@@ -423,6 +423,10 @@ inline RCP<const Basic> build_named(const std::string &name, const vec_basic &a)
             s.insert(as_set(x));
         return set_union(s);
     }
+    if (name == "ConditionSet")
+        return conditionset(a.at(0), as_bool(a.at(1)));
+    if (name == "ImageSet")
+        return imageset(a.at(0), a.at(1), as_set(a.at(2)));
     if (name == "Derivative") {
         multiset_basic ms;
         for (size_t k = 1; k < a.size(); k++)
